@@ -5,6 +5,7 @@ import gp_common as G
 FILES = ['src/urcu.c', 'src/urcu-wait.h', 'include/urcu/static/urcu-common.h', 'include/urcu/static/urcu-memb.h', 'include/urcu/static/urcu-mb.h',
          'src/urcu-qsbr.c', 'include/urcu/static/urcu-qsbr.h', 'src/urcu-bp.c', 'include/urcu/static/urcu-bp.h']
 PROGS = ['(r)(q)/SS', '(r)(q)/(r)(q)/SS', '(r(q))/(q)(r)/S/S', '((r)q)(r)/S(r)/S', '(q)(q)(q)/(r)(r)/SS', '(r)/(q)/(rq)/SS']
+BPPROGS = ['(r)/(q)(r)(q)(r)/SSS', '(r)(q)/(r)/(q)(r)(q)/SS', '(q)/(r)(r)/S/S(q)', '(r)/(q)/(r)/(q)/SSS']      # bp: threads register at their first read-side call, also while a grace period is waiting
 QPROGS = ['FNr/SS', 'rFNrQq/SS', 'rQqFNr/qFNrQq/SS', 'rQrQr/FNq/S/S', 'qFNqFNq/rQr/SS', 'rFNr/S/qQq/S']
 TRUSTED = ['Coq 8.16.1 kernel; no axioms; no native_compute',
            'extraction: ExtrOcamlBasic only; ocaml/gp_driver.ml, ocaml/gpmb_driver.ml',
@@ -87,13 +88,14 @@ def run(ctx):
     mbdriver = build_model_driver(ctx, 'gpmb', 'ExtractGpMb.v', 'gpmb_driver.ml')
     run_flavor(ctx, 'scen_gp_mb', ['-DFLAVOR_MB'], PROGS, n // 2, mbdriver, project=G.project_mb, model='GpMbExec (mb model)')
     run_flavor(ctx, 'scen_qsbr', [], QPROGS, n, src='scen_qsbr.c', orc=G.qsbr_oracle)
+    run_flavor(ctx, 'scen_sig_bp_c01', ['-DFLAVOR_BP'], BPPROGS, n // 2, src='scen_sig.c')
     return finish(ctx, trusted=TRUSTED, rule='Step/Flush schedules = corpus + parking sweeps (each thread frozen after k steps while the others complete 1 or 2 whole operations, '
                   'store buffers flushed eagerly or not) + bursty random (flush probability 0-0.3); every scenario has >= 2 consecutive grace periods and both litmus load orders; '
-                  'non-trivial = trace has a delayed reader store and reaches the futex path; builds: memb+membarrier (refinement-checked against GpExec), mb (refinement-checked against GpMbExec), memb fallback, qsbr')
+                  'non-trivial = trace has a delayed reader store and reaches the futex path; builds: memb+membarrier (refinement-checked against GpExec), mb (refinement-checked against GpMbExec), memb fallback, qsbr, bp (registration on first use)')
 def replay(ctx, rp):
     f = rp.get('failing_input') or {}
     if not f: print('nothing to replay'); return 2
-    defs = {'scen_gp_memb': [], 'scen_gp_memb_nomembarrier': ['-DNO_MEMBARRIER'], 'scen_gp_mb': ['-DFLAVOR_MB'], 'scen_qsbr': []}[f['scenario']]
-    impl = G.build(ctx, f['scenario'], defs, 'scen_qsbr.c' if f['scenario'] == 'scen_qsbr' else 'scen_gp.c')
+    defs = {'scen_gp_memb': [], 'scen_gp_memb_nomembarrier': ['-DNO_MEMBARRIER'], 'scen_gp_mb': ['-DFLAVOR_MB'], 'scen_qsbr': [], 'scen_sig_bp_c01': ['-DFLAVOR_BP']}[f['scenario']]
+    impl = G.build(ctx, f['scenario'], defs, 'scen_qsbr.c' if f['scenario'] == 'scen_qsbr' else 'scen_sig.c' if 'bp' in f['scenario'] else 'scen_gp.c')
     rc, out = run_many([[impl, f['prog'], f['schedule']]], timeout=20)[0]
     print(out[-3000:]); o = (G.qsbr_oracle if f['scenario'] == 'scen_qsbr' else G.oracle)(f['prog'], f['schedule'], None, out); print('verdict:', o or 'no violation'); return 1 if o else 0
